@@ -5,7 +5,13 @@ cd /verif
 declare -A PIDS=( [A12]="C05" [A37]="C12 C20" [C74]="C07" [Z05]="C13" [X14]="C18 C16" [X18]="C02 C15 C01" [X22]="C05" [X23]="C05" [Y03]="C02 C15 C01" [X26]="C18 C16" [Y05]="C02 C15" [X27]="C18 C14 C09" [U01]="C17 C16" [U03]="C08" [U05]="C15 C02" [U06]="C02 C15" [F02]="C13" [G15]="C18 C16" )
 declare -A PIDS2=( [N313]="C06" [N362]="C02 C15" [N400]="C10" [N401]="C12 C06" [N402]="C08" [N403]="C17" [N404]="C05" [N406]="C19" [N407]="C11" [N408]="C03" [N410]="C16" [N411]="C13" [N170]="C12 C20" [N421]="C11" [N422]="C11" )
 declare -A PIDS3=( [P001]="C17 C18 C16 C09" [P002]="C17 C18" [P030]="C02 C15 C01 C14" [M004]="C05" [O061]="C01 C19 C14" [O063]="C01" [E260]="C06 C12" [Q001]="C03 C02" [Q002]="C03 C02" [Q003]="C05" )
+declare -A PIDS4=( [AU21]="C03 C02" [AU52]="C03 C02" [AU53]="C03 C02" [NX07]="C03 C02" [NX08]="C03 C02" [AU60]="C03 C02" [BM32]="C05" )
 rc=0
+for f in seeded/harmless4/*.diff; do b=$(basename $f .diff); for p in ${PIDS4[$b]}; do
+  out=$(VERIF_SCRATCH_REPLAY= tools/seed_scratch.sh /verif/$f $p | grep -E "VIOLATION|UNDECIDED" | sed 's/replay=[^ ]* //' | cut -c1-140 | head -1)
+  case "$out" in VIOLATION*) rc=1;; esac
+  echo "$b $p: ${out:-green}"
+done; done
 for f in seeded/harmless3/*.diff; do b=$(basename $f .diff); for p in ${PIDS3[$b]}; do
   out=$(VERIF_SCRATCH_REPLAY= tools/seed_scratch.sh /verif/$f $p | grep -E "VIOLATION|UNDECIDED" | sed 's/replay=[^ ]* //' | cut -c1-140 | head -1)
   case "$out" in VIOLATION*) rc=1;; esac
